@@ -79,9 +79,6 @@ def evaluate__item_sequence_type(self: XPathFunction, context: ta.ContextType = 
 @method('item')
 def nud__item_sequence_type(self: XPathFunction) -> XPathFunction:
     XPathFunction.nud(self)
-    if self.parser.next_token.symbol in ('*', '+', '?'):
-        self.occurrence = self.parser.next_token.symbol
-        self.parser.advance()
     return self
 
 
